@@ -16,6 +16,10 @@ pub struct DbSpec {
     pub disk: Option<DiskCfg>,
     /// run a compaction pass after loading
     pub tick_after_load: bool,
+    /// statements run after the load (DELETEs, "TICK" = one compaction pass on disk); their
+    /// outcome is not examined
+    #[serde(default)]
+    pub post: Vec<String>,
 }
 
 impl DbSpec {
@@ -50,7 +54,7 @@ pub fn gen_dbspec(t: &mut Tape, cfg: &GenCfg, disk: Option<DiskCfg>) -> DbSpec {
     let schema = gen_schema(t, cfg);
     let data = gen_data(t, cfg, &schema);
     let tick_after_load = disk.is_some() && t.chance(1, 4);
-    DbSpec { schema, data, disk, tick_after_load }
+    DbSpec { schema, data, disk, tick_after_load, post: vec![] }
 }
 
 /// Open the database of a case and load it. Err = setup did not work (reported by the caller).
@@ -71,6 +75,16 @@ pub async fn open_and_load(ctx: &Ctx, spec: &DbSpec, tag: &str) -> Result<rising
     if spec.tick_after_load {
         tick().await;
     }
+    for s in &spec.post {
+        if s == "TICK" {
+            if spec.disk.is_some() {
+                tick().await;
+            }
+        } else {
+            let _ = exec(&db, s).await;
+        }
+    }
+    let _ = take_panics();
     Ok(db)
 }
 
@@ -189,6 +203,67 @@ pub fn cfg_for(ctx: &Ctx, subqueries: bool) -> GenCfg {
     c.count_star_in_subquery = !ctx.off("gen.count_star_in_subquery");
     c.scalar_subquery = !ctx.off("gen.scalar_subquery");
     c.correlated_not_in = !ctx.off("gen.correlated_not_in");
+    c.derived_order = !ctx.off("gen.derived_order");
     c
 }
 
+
+/// A statement that one side answers got no answer from risinglight (error or panic). Whether
+/// every accepted statement gets an *executable plan* is C17's question (and the unchanged tree
+/// fails it for many shapes), so a failure that comes from the planner or from building / evaluating
+/// the plan is not this property's business: `Ok(class)`. A failure from anywhere else — storage,
+/// array kernels, the operators themselves — while the other side answers is a difference in
+/// behaviour: `Err(signature)`.
+pub fn no_answer(out: &Out, panics: &[String]) -> Result<String, String> {
+    const PLAN_SITES: [&str; 7] = [
+        "planner/",
+        "binder/",
+        "executor/mod.rs",            // executor build: column not found, unsupported node
+        "executor/evaluator.rs",      // an expression node the evaluator does not know (exists, in, ..)
+        "executor/nested_loop_join.rs:26", // todo!(): RIGHT/FULL nested-loop join
+        "egg-",
+        "db.rs",
+    ];
+    const PLAN_ERRORS: [&str; 6] = ["not supported in executor", "no function", "can not evaluate", "not found from input", "bind error", "parse error"];
+    match panics.first() {
+        Some(p) => {
+            let sig = panic_sig(p);
+            if PLAN_SITES.iter().any(|s| sig.starts_with(s) || sig.contains(&format!("/{s}"))) {
+                Ok(format!("no-answer:{sig}"))
+            } else {
+                Err(format!("no-answer:{sig}"))
+            }
+        }
+        None => {
+            let b = out.brief();
+            if PLAN_ERRORS.iter().any(|e| b.contains(e)) {
+                Ok("no-answer:error:plan".to_string())
+            } else {
+                let short: String = b.chars().take(60).map(|c| if c.is_ascii_digit() { '#' } else { c }).collect();
+                Err(format!("no-answer:error:{short}"))
+            }
+        }
+    }
+}
+
+/// DELETE statements (and compaction passes) to run after the load, so that queries see row-sets
+/// with delete vectors: 0-2 deletes with a generated predicate, each possibly followed by a pass.
+pub fn gen_post(t: &mut Tape, cfg: &GenCfg, schema: &[TableDef]) -> Vec<String> {
+    let mut post = vec![];
+    if !t.chance(1, 3) {
+        return post;
+    }
+    for _ in 0..t.range(1, 2) {
+        let td = &schema[t.pick(schema.len())];
+        let scope: Vec<ScopeCol> = td.cols.iter().map(|c| ScopeCol { alias: td.name.clone(), name: c.name.clone(), ty: c.ty }).collect();
+        let mut c2 = cfg.clone();
+        c2.subqueries = false;
+        let mut g = Gen { t, cfg: c2, schema, alias_no: 0 };
+        let p = g.expr(&scope, &[], Ty::Bool, 2, false);
+        post.push(format!("delete from {} where {}", td.name, p.print(Dialect::Rl)));
+        if t.chance(1, 4) {
+            post.push("TICK".to_string());
+        }
+    }
+    post
+}
